@@ -380,8 +380,14 @@ def e_shape_chain(b):
         return b.out(n, val.dtype, dims, True, [], const=False)
     if r < 0.9:
         other = b.i64([int(x) for x in nice(rng, I64, sv.shape)])
-        (n,) = b.node(rng.choice(["Add", "Mul", "Sub"]), [sv, other])
-        return b.out(n, I64, sv.shape, True, [], const=False)
+        (n,) = b.node(rng.choice(["Add", "Add", "Mul", "Sub"]), [sv, other] if rng.random() < 0.7 else [other, sv])
+        res = b.out(n, I64, sv.shape, True, [], const=False)
+        if rng.random() < 0.5:
+            # Abs of a shape-valued tensor (the folder drops it when it believes every entry is non-negative)
+            (a2,) = b.node("Abs", [res])
+            res = b.out(a2, I64, sv.shape, True, [], const=False)
+            b.features.add("abs-of-shape-arithmetic")
+        return res
     (n,) = b.node("Cast", [sv], to=TensorProto.FLOAT)
     return b.out(n, F32, sv.shape, True, [], const=False)
 
